@@ -201,7 +201,8 @@ def compare_values(tag, orig, rest, keep, digits, reference, default, seen=None)
         p = lossy_problem(o.astype(np.float64), r.astype(np.float64), digits, reference, sv)
     if p and p.startswith('NONFINITE'):
         return (tag + ':lossy-nonfinite:%s' % (reference if isinstance(reference, str) else 'num'), tag + ': ' + p)
-    return (tag + ':lossy:%s:%s' % (digits if isinstance(digits, str) else 'num', reference if isinstance(reference, str) else 'num'),
+    width = '' if orig.dtype.itemsize == 8 else ':f%d' % orig.dtype.itemsize
+    return (tag + ':lossy:%s:%s%s' % (digits if isinstance(digits, str) else 'num', reference if isinstance(reference, str) else 'num', width),
             tag + ': ' + p) if p else None
 
 
@@ -333,6 +334,10 @@ def oracle(case):
         else:
             r = pickle.loads(data)
     except Exception as e:
+        if case.get('digits') is not None and any(isinstance(o._values_, np.ndarray) and o._values_.dtype.kind == 'f'
+                                                   and o._values_.dtype.itemsize == 4 for o in [q] + list(q._derivs_.values())):
+            return ('loads-raises:%s:lossy-f4' % type(e).__name__,
+                    'pickle.loads raised %s: %s (float32 data under a lossy setting)' % (type(e).__name__, str(e)[:200]))
         return ('loads-raises:%s:%s' % (type(e).__name__, dtype_tag(q)),
                 'pickle.loads raised %s: %s' % (type(e).__name__, str(e)[:200]))
     return compare(case, q, r)
@@ -345,7 +350,9 @@ def dtype_tag(q):
 # ------------------------------------------------------------------------------------------ generation
 FLOAT_CLASSES = [('Scalar', ()), ('Vector3', (3,)), ('Pair', (2,)), ('Vector', (4,)), ('Matrix', (2, 2)), ('Matrix3', (3, 3)), ('Quaternion', (4,))]
 INT_CLASSES = [('Scalar', ()), ('Pair', (2,)), ('Vector', (3,))]
-INT_DTYPES = ['int8', 'int16', 'int32', 'int64', 'uint8', 'uint16', 'uint32', 'uint64']
+INT_DTYPES = ['int8', 'int16', 'int32', 'int64', 'uint8', 'uint16', 'uint32', 'uint64',
+              '>i2', '>i4', '>i8', '>u2', '>u4', '>u8']            # the last six: non-native (big-endian) byte order
+FLOAT_DTYPES = ['float64'] * 6 + ['float32', '>f8', '>f8', '>f4']
 FLOAT_DISTS = ['normal', 'const', 'smooth', 'wide', 'zeros', 'negzero', 'subnormal', 'inf', 'nan', 'bits', 'special']
 LOSSY_DISTS = ['normal', 'const', 'smooth', 'offset', 'uniform', 'moderate', 'withzeros']
 INT_DISTS = ['full', 'small', 'const', 'extremes', 'zeros']
@@ -381,7 +388,7 @@ def rand_mask(rng, shape, pat=None, isz=1):
 def rand_obj(rng, kind, shape, lossy=False, cls=None):
     if kind == 'float':
         name, numer = cls or rng.choice(FLOAT_CLASSES)
-        dtype = 'float64' if (lossy or rng.random() < 0.8) else 'float32'
+        dtype = rng.choice(['float64'] * 5 + ['>f8']) if lossy else rng.choice(FLOAT_DTYPES)
         dist = rng.choice(LOSSY_DISTS + ['inf', 'nan'] if lossy else FLOAT_DISTS)
     elif kind == 'int':
         name, numer = cls or rng.choice(INT_CLASSES)
@@ -408,7 +415,8 @@ def rand_derivs(rng, o, lossy):
     res = []
     nd = rng.choice([1, 1, 2, 3])
     for key in rng.sample(['t', 'xy', 'r', 'lon'], nd):
-        d = {'cls': o['cls'], 'numer': o['numer'], 'denom': rng.choice([[], [], [2], [3], [2, 2]]), 'dtype': 'float64',
+        d = {'cls': o['cls'], 'numer': o['numer'], 'denom': rng.choice([[], [], [2], [3], [2, 2]]),
+             'dtype': rng.choice(['float64'] * 4 + ['>f8', 'float32', '>f4']),
              'vdist': rng.choice(LOSSY_DISTS + ['inf', 'nan'] if lossy else FLOAT_DISTS), 'vseed': rng.randrange(1 << 30),
              'layout': rng.choice(['C'] + VALUE_LAYOUTS), 'key': key, 'units': 0,
              'mlayout': rng.choice(['', 'F', 'strided'])}
@@ -517,10 +525,10 @@ def gen_cases(rng, tier):
                 add(o, derivs=derivs, digits=digits, reference=reference, digits_first=rng.random() < 0.2,
                     readonly=rng.random() < 0.1)
         # 4. operand provenance: every dtype x value layout x mask layout x object history (views, warm caches)
-        for dtype in INT_DTYPES + ['float64', 'float64', 'float32', 'bool']:
+        for dtype in INT_DTYPES + ['float64', 'float64', 'float32', '>f8', '>f4', 'bool']:
             for lay in VALUE_LAYOUTS:
                 shape = rng.choice(PROV_SHAPES)
-                kind = 'int' if 'int' in dtype else 'bool' if dtype == 'bool' else 'float'
+                kind = {'i': 'int', 'u': 'int', 'b': 'bool', 'f': 'float'}[np.dtype(dtype).kind]
                 o = rand_obj(rng, kind, shape)
                 o['dtype'] = dtype
                 o['layout'] = lay
